@@ -131,6 +131,12 @@ func (v rv) truthy() bool {
 }
 
 func rEqual(a, b rv) bool {
+	// negative zero is outside the comparison region: stick compares the string forms ("-0" / "0"), Twig the numbers
+	for _, v := range []rv{a, b} {
+		if v.k == vNum && v.n == 0 && math.Signbit(v.n) {
+			bail("neg-zero")
+		}
+	}
 	switch {
 	case a.k == vNum && b.k == vNum:
 		return a.n == b.n
